@@ -215,8 +215,18 @@ func (c *Ctx) runUNIT(r *Report, rule string, scope map[*ssa.Function]bool, allo
 	}
 	report := func(fn *ssa.Function, in ssa.Instruction, construct, why string) {
 		fname := c.fname(fn)
+		owners := []string{fname}
+		if c.isNew(fn) {
+			owners = c.ownerNames(fn) // an extracted helper inherits the exceptions read for the code it was cut from
+		}
 		for _, a := range allow {
-			if a.Func == fname && strings.HasPrefix(construct, a.Construct) && a.used < a.Max {
+			own := false
+			for _, o := range owners {
+				if o == a.Func {
+					own = true
+				}
+			}
+			if own && strings.HasPrefix(construct, a.Construct) && a.used < a.Max {
 				a.used++
 				r.Allow(rule, fname, construct, c.ipos(in), a.Reason)
 				return
